@@ -50,6 +50,7 @@ structure Mon where
   issuedAt : List (ReqId × Nat) := []
   known    : List ConnId := []               -- connections that have been handed out before
   pend     : List ReqId := []                -- requests whose last poll was `Pending`
+  connKey  : List (ConnId × KeyId) := []     -- the origin a connection was dialled for (reported when it is handed out)
   marks    : Nat := 0                        -- `mark` ops seen (2 = every attempt resolved and every
                                              --   request polled since: nobody may still be pending)
   idx      : Nat := 0
@@ -59,7 +60,11 @@ deriving Repr
 def monStep (cfg : Config) (m : Mon) (op : Op) (o : IObs) : Mon × Option String :=
   let m1 := { m with idx := m.idx + 1 }
   -- C15 at every point of every history
-  let over := o.idle.any fun (_, l) => decide (l.length > cfg.maxIdle)
+  -- … per idle list, and per origin whatever lists its connections sit in
+  let idleConns := o.idle.flatMap (·.2)
+  let perOrigin := (idleConns.filterMap fun c => m.connKey.lookup c).eraseDups.any fun k =>
+    decide ((idleConns.filter fun c => m.connKey.lookup c == some k).length > cfg.maxIdle)
+  let over := (o.idle.any fun (_, l) => decide (l.length > cfg.maxIdle)) || perOrigin
   let v15 : Option String := if over then some "C15/idle-over-limit" else none
   match op with
   | .issue r k _ => ({ m1 with keyOf := (r, k) :: m.keyOf, issuedAt := (r, m.idx) :: m.issuedAt }, v15)
@@ -78,7 +83,10 @@ def monStep (cfg : Config) (m : Mon) (op : Op) (o : IObs) : Mon × Option String
                  | some ci, some ri => m.known.contains c && decide (ci < ri) | _, _ => false) then some "C05/closed-handout"
         else none
       ({ m2 with holders := (r, c) :: m.holders, busy := if o.isH2 then m.busy else c :: m.busy,
-                 known := c :: m.known }, v <|> lost <|> v15)
+                 known := c :: m.known,
+                 connKey := match o.origin with
+                   | some k => if (m.connKey.lookup c).isSome then m.connKey else (c, k) :: m.connKey
+                   | none => m.connKey }, v <|> lost <|> v15)
     | .panic => (m2, some "C17/pool-panic")
     | _ => (m2, lost <|> v15)
   | .finish r => ({ m1 with holders := if o.res == .done then m.holders.filter (·.1 != r) else m.holders }, v15)
@@ -110,7 +118,12 @@ def strandedAt (s : State) (r : ReqId) (res : Obs) : Bool :=
     `drain` = we are in the drain/probe phase, where every attempt has been resolved. -/
 def classify (s : State) (drain : Bool) (op : Op) (mo : IObs) (io : IObs) : Option String :=
   if io.dials > mo.dials then some "C04/extra-dial"
-  else if io.drops > mo.drops then some "C04/connection-destroyed"
+  else if io.drops > mo.drops then
+    -- the model passes the connection on (to a waiting request, or to the idle list after clearing the queue); the implementation destroys
+    -- it and leaves the queue as it was
+    let queued := fun (o : IObs) => (o.waiting.map fun w => w.2.1).sum
+    if queued mo < queued io then some "C04/connection-destroyed,C14/released-connection-destroyed-not-passed-on"
+    else some "C04/connection-destroyed"
   else match op with
   | .poll r =>
     match s.co r, mo.res, io.res with
